@@ -3,7 +3,6 @@ package c19
 import (
 	"bufio"
 	"fmt"
-	"net"
 	"runtime"
 	"sort"
 	"strconv"
@@ -11,6 +10,7 @@ import (
 	"time"
 
 	"verifharness/internal/fw"
+	"verifharness/internal/sut"
 )
 
 // msgView is one stored message as read back through the store (piecewise) or REST (full).
@@ -148,7 +148,7 @@ func (w *world) cleanup() {
 // domain is a new session started after shutdown; a greeting from somebody else means the
 // kernel has handed the port to another process and says nothing about inbucket.
 func (w *world) probe(proto string) (greetedByUs bool) {
-	conn, err := net.DialTimeout("tcp4", w.addr[proto], w.wd)
+	conn, err := sut.DialTCP(w.addr[proto], w.wd)
 	if err != nil {
 		if isTimeout(err) {
 			w.c.Count("probe_connect_timeout", 1)
